@@ -32,6 +32,9 @@ for i, pid in enumerate(ids, 1):
     p = props[pid]
     prop = json.dumps({k: p[k] for k in ('id', 'title', 'statement', 'quantifier', 'why_tests_cant')}, indent=1)
     text = base.format(wt=wt, prop=prop, pid=pid)
+    if tag[0] == 'k':
+        text = text.replace('Prefer changes that keep the overall structure of the code (same functions, same if-statements) where that is possible.',
+            'IMPORTANT extra constraint for this round: the PRIMARY, most frequently inspected result must stay right. Break the property through a SECONDARY output that the property also covers but that is rarely looked at: an auxiliary or derived field of a decoded object, one line or one number of the readable display, the second of two output files, a value derived from the decoded data (a name, a wavelength, a count, a time line), the state left behind for the next call. The property as stated must really cover that output.')
     if tag[0] == 'g':
         text = text.replace('Prefer changes that keep the overall structure of the code (same functions, same if-statements) where that is possible.',
             'IMPORTANT extra constraint for this round: do NOT change the function that most obviously implements the property. Put the change into something the property depends on only INDIRECTLY - a helper, an accessor, a constructor, a constant or table, a utility in another package, the way a value is passed or stored between two stages - so that the code that "owns" the property still reads exactly as before, yet the property breaks through the dependency. Keep the change small and honest-looking.')
